@@ -254,6 +254,15 @@ class BatchSuite(Suite):
                     max_out = max(max_out, len(queue.outstanding_jobs))
         except Exception as e:  # noqa
             err = err_enum(e)
+        # ---- what the round does next (HpcSubmitter.run): it persists what the submit phase handed back.  The status
+        # update must accept the round's own output: an exception here is raised under the cluster lock with
+        # submitter.lock in place - the batches are at the HPC, nothing is recorded, every later round refuses.
+        upd_err = None
+        if err is None and not any(g.get("dryRun") for g in sc["groups"]):      # a dry run persists nothing that matters afterwards
+            try:
+                hs._update_status(submitted, blocked, [], sorted(x.job_id for x in queue.outstanding_jobs), set())
+            except Exception as e:  # noqa
+                upd_err = f"{type(e).__name__}: {str(e)[:160]}"
         # ---- observations from the files the code wrote
         batches = []
         idx = case["batchIndex"]
@@ -279,7 +288,7 @@ class BatchSuite(Suite):
                  "blocked": [jid(j.name) for j in blocked], "outstanding": len(queue.outstanding_jobs), "diverged": False}
         if err:
             model = {"error": err}
-        obs = {"batches": batches, "submitted": [jid(j.name) for j in submitted], "sbatch_calls": len(Sbatch.calls),
+        obs = {"batches": batches, "submitted": [jid(j.name) for j in submitted], "sbatch_calls": len(Sbatch.calls), "status_update_error": upd_err,
                "max_outstanding": max_out, "next_index": hs._batch_index,
                "stray_files": sorted(p.name for p in out.glob("config_batch_*.json") if int(re.search(r"_(\d+)\.json", p.name).group(1)) < case["batchIndex"])}
         return {"model": model, "obs": obs}
@@ -299,6 +308,13 @@ class BatchSuite(Suite):
             v.append(Violation("C07", "batch.raises", f"submit phase raised {result['model']['error']} on a valid configuration"))
             v.append(Violation("C01", "batch.raises", f"submit phase raised {result['model']['error']} on a valid configuration"))
             return v
+        if obs.get("status_update_error"):
+            msg = (f"the status update of the round rejected the round's own output ({obs['status_update_error']}): batches "
+                   f"{[[j['id'] for j in b['jobs']] for b in obs['batches']]} are at the HPC, submitted={obs['submitted']}, "
+                   f"blocked={result['model'].get('blocked') if isinstance(result['model'], dict) else None}; nothing is recorded and "
+                   "submitter.lock stays: the submission cannot make progress or complete")
+            for prop in ("C05", "C07", "C01", "C09"):
+                v.append(Violation(prop, "round.status_update_raises", msg))
         jobs = {j["id"]: j for j in sc["jobs"]}
         rem = {j["id"]: set(case["remaining"][i]) for i, j in enumerate(sc["jobs"])}
         state = {j["id"]: case["states"][i] for i, j in enumerate(sc["jobs"])}
